@@ -55,7 +55,8 @@ ALL_FEATURES = [
     'expr:new_args', 'expr:call', 'expr:dot', 'expr:bracket', 'expr:dot_keyword',
     'prim:ident', 'prim:this', 'prim:number', 'prim:string', 'prim:regex', 'prim:true', 'prim:false',
     'prim:null', 'prim:array', 'prim:object', 'prim:funcexpr', 'prim:funcexpr_named', 'prim:group',
-    'group:single', 'group:nested',
+    'group:single', 'group:nested', 'accessor:ident_name', 'accessor:string_name', 'accessor:number_name',
+    'accessor:keyword_name',
     'array:empty', 'array:elision_lead', 'array:elision_mid', 'array:elision_trail', 'array:trailing_comma',
     'array:only_elision', 'object:empty', 'object:ident_key', 'object:string_key', 'object:number_key',
     'object:keyword_key', 'object:getter', 'object:setter', 'object:trailing_comma', 'object:getset_key',
@@ -665,7 +666,16 @@ class Gen(object):
                     self.assignment(False, False)
                 else:
                     self.emit('get' if k == 'getter' else 'set', 'accessor')
-                    self.emit(self.ident())   # identifier names only: see known finding on accessor names
+                    nk = self.choose('accessor', [('ident_name', 4), ('string_name', 1), ('number_name', 1),
+                                                   ('keyword_name', 1 if self.o.keyword_props else 0)])
+                    if nk == 'ident_name':
+                        self.emit(self.ident())
+                    elif nk == 'string_name':
+                        self.emit(self.rng.choice(STRINGS), 'str')
+                    elif nk == 'number_name':
+                        self.emit(self.rng.choice(NUMBERS), 'num')
+                    else:
+                        self.emit(self.rng.choice(sorted(RESERVED)))
                     self.emit('(')
                     if k == 'setter':
                         self.emit(self.ident())
@@ -758,9 +768,12 @@ def render(tokens, style='space', rng=None, lt=None, comments=False):
                     sep = (lt if rng.random() < 0.7 else rng.choice(LINE_TERMINATORS)) + \
                         (' ' * rng.randint(0, 4) if rng.random() < 0.5 else '')
                 elif comments and r < 0.95:
-                    sep = ' /* c%d */ ' % i if rng.random() < 0.6 else '/*m%d%s*/' % (i, lt)
+                    sep = rng.choice([' /* c%d */ ', '/*c%d*/', '/* c%d  */', '/** c%d **/', ' /*%d // */ ']) % i \
+                        if rng.random() < 0.6 else '/*m%d%s*/' % (i, lt)
                 elif comments:
-                    sep = ' // line %d%s' % (i, lt)
+                    # bodies with trailing / leading white space, empty bodies, comment openers inside
+                    body = rng.choice([' line %d', ' line %d  ', '%d\t', ' %d \xa0', '', ' /* %d', '/ %d //'])
+                    sep = ' //' + (body % i if '%d' in body else body) + lt
                 else:
                     sep = ' '
                 if sep == '' and needs_space(prev, t):
